@@ -279,3 +279,56 @@ Proof. exact fn_ref_pure_eq. Qed.
 Theorem C02_source_alleles :
   forall (baf : option Q) (a : Q) (cn : Z), fn_alleles baf a cn = alleles a baf cn.
 Proof. exact fn_alleles_eq. Qed.
+
+(* ---- source tie of the threshold scan (Gen/FnCallScan.v: ONE ITERATION of absolute_threshold's
+   `for cnum, thresh in enumerate(thresholds):` regenerated from the Python source as
+   fn_threshold_step cnum thresh log2 ref_copies ploidy = (cnum after the iteration, left by `break`?),
+   and the for/else fallback as fn_threshold_else). *)
+From CNV Require Import Gen.FnCallScan Proofs.FnCallScan.
+
+(* what the hand-written recursion scan_loop does with the head (cnum, thresh) pair IS the generated
+   step: with the exact quotient for every input; with Python's float quotient (any fdiv meeting
+   fdiv_contract) exactly where C02_float_quotient applies -- 0 <= cnum * ref_copies < 2^53, 0 < ploidy *)
+Theorem C02_source_scan_step :
+  (forall v e k r cnum thresh rest,
+     scan_loop exact_div v e k r ((cnum, thresh) :: rest)
+     = let '(c, brk) := fn_threshold_step cnum thresh v r k in
+       if brk then c else scan_loop exact_div v e k r rest) /\
+  (forall fdiv v e k r cnum thresh rest,
+     fdiv_contract fdiv -> 0 <= cnum * r -> cnum * r < 2 ^ 53 -> 0 < k ->
+     scan_loop fdiv v e k r ((cnum, thresh) :: rest)
+     = let '(c, brk) := fn_threshold_step cnum thresh v r k in
+       if brk then c else scan_loop fdiv v e k r rest).
+Proof. exact source_scan_step. Qed.
+
+(* the for/else fallback as written: int(np.ceil(_log2_ratio_to_absolute_pure(log2, ref_copies))) *)
+Theorem C02_source_scan_else :
+  forall (exp2 : Q -> Q) v r,
+    fn_threshold_else exp2 v r = trunc_Q (inject_Z (Qceiling (abs_pure (exp2 v) r))).
+Proof. exact fn_threshold_else_eq. Qed.
+
+(* hence the whole scan: folding the generated step over enumerate(thresholds) -- stop at the first step
+   that answers true, the generated for/else fallback when none does (for_else, Proofs/FnCallScan.v) --
+   equals scan_row, for every threshold list, ploidy and reference copy number ... *)
+Theorem C02_source_scan :
+  forall (exp2 : Q -> Q) v ts k r,
+    scan_row exact_div (Some v) (exp2 v) ts k r
+    = for_else (fun cnum thresh => fn_threshold_step cnum thresh v r k) (fn_threshold_else exp2 v r)
+               (enumerate_from 0 ts).
+Proof. exact source_scan. Qed.
+
+(* ... and with Python's float quotient under its contract whenever len(thresholds) * ref_copies <= 2^53 *)
+Theorem C02_source_scan_float :
+  forall (exp2 : Q -> Q) fdiv, fdiv_contract fdiv ->
+  forall v ts k r, 0 <= r -> 0 < k -> Z.of_nat (length ts) * r <= 2 ^ 53 ->
+    scan_row fdiv (Some v) (exp2 v) ts k r
+    = for_else (fun cnum thresh => fn_threshold_step cnum thresh v r k) (fn_threshold_else exp2 v r)
+               (enumerate_from 0 ts).
+Proof. exact source_scan_float. Qed.
+
+(* the driver is not vacuous: default thresholds, log2 0.3, haploid X at ploidy 2 -> three steps answer
+   false, the fourth leaves the loop with int(3 * 1 / 2) = 1; log2 1.0 runs off the end into the fallback *)
+Example C02_ex_source_scan :
+  for_else (fun cnum thresh => fn_threshold_step cnum thresh (3 # 10)%Q 1 2) 99 (enumerate_from 0 lit_thresholds) = 1
+  /\ for_else (fun cnum thresh => fn_threshold_step cnum thresh 1%Q 1 2) 99 (enumerate_from 0 lit_thresholds) = 99.
+Proof. split; reflexivity. Qed.
